@@ -15,7 +15,7 @@ import (
 
 func init() {
 	register("C18",
-		"RACE: a lockset + happens-before analysis over the goroutine roots of gbn (API methods Send/Recv/Close/SetSendTimeout/SetRecvTimeout as concurrently callable roots, the receive and send loops, the handshake reader, the ticker goroutine, proceedAfterTime, and the constructor goroutine). For every field of the connection-state types (GoBackNConn, config, queue, queueCfg, syncer, TimeoutManager, TimeoutBooster, IntervalAwareForceTicker, the sentTimes map and the queue's content elements) every pair of accesses from two roots (or a multi-instance root) with at least one write must hold a common lock (exclusively for the write), be atomic on both sides, or be ordered by one of three idioms: publication (constructor before API use), before-go (the access precedes, along every call path, the go statement that starts the other root) and after-Wait (the access is dominated by Wait on the WaitGroup the other root signals; restarts serialised by a common lock). CLOSE: every close(ch) matches a once/owner idiom and no channel with a close site has a send site. LOCKORD: the lock-class acquisition graph (through calls) is acyclic, no lock is re-acquired while held, and nothing that can wait indefinitely executes under a lock unless the goroutines it waits for never take that lock. Not decided: races on the excluded message structs (ownership is handed over through channels/callbacks), value-sensitive orderings outside the three idioms (reported as findings, none on this tree), races inside dependencies.",
+		"RACE: a lockset + happens-before analysis over the goroutine roots of gbn (API methods Send/Recv/Close/SetSendTimeout/SetRecvTimeout as concurrently callable roots, the receive and send loops, the handshake reader, the ticker goroutine, proceedAfterTime, and the constructor goroutine). For every field of the connection-state types (GoBackNConn, config, queue, queueCfg, syncer, TimeoutManager, TimeoutBooster, IntervalAwareForceTicker, the sentTimes map and the queue's content elements) every pair of accesses from two roots (or a multi-instance root) with at least one write must hold a common lock (exclusively for the write), be atomic on both sides, or be ordered by one of three idioms: publication (constructor before API use), before-go (the access precedes, along every call path, the go statement that starts the other root) and after-Wait (the access is dominated by Wait on the WaitGroup the other root signals; restarts serialised by a common lock). CLOSE: every close(ch) matches a once/owner idiom and no channel with a close site has a send site. LOCKORD: the lock-class acquisition graph (through calls) is acyclic, no lock is re-acquired while held, and nothing that can wait indefinitely executes under a lock unless the goroutines it waits for never take that lock. LOCKBAL (gbn): no function of gbn returns holding a mutex it locked without a deferred unlock, none re-locks a mutex it may still hold. Not decided: races on the excluded message structs (ownership is handed over through channels/callbacks), value-sensitive orderings outside the three idioms (reported as findings, none on this tree), races inside dependencies.",
 		[]string{"a mutex field of a struct guards the other fields of the same instance (instances are not confused); sync.Once, WaitGroup, channel close/receive and go statements give the happens-before edges of the Go memory model"},
 		runC18)
 }
